@@ -277,6 +277,36 @@ class GenFacts:
             self._paths[name] = ps
         return self._paths[name]
 
+    def releasers(self):
+        """{method name: index of the parameter it releases}: methods that end the life of a stack bubble by ROLE - they set
+        `self.stack = <param>.prev` themselves, or hand their parameter to such a method (pop, pop_value and whatever a
+        refactor splits off from them: pop_dynamic, discard, forget ...)."""
+        if getattr(self, '_releasers', None) is not None:
+            return self._releasers
+        out = {}
+        for name, fn in self.methods.items():
+            params = [a.arg for a in fn.args.args][1:]
+            for n in ast.walk(fn):
+                if isinstance(n, ast.Assign) and any(src(t) == 'self.stack' for t in n.targets) and isinstance(n.value, ast.Attribute) \
+                        and n.value.attr == 'prev' and isinstance(n.value.value, ast.Name) and n.value.value.id in params:
+                    out[name] = params.index(n.value.value.id)
+        changed = True
+        while changed:
+            changed = False
+            for name, fn in self.methods.items():
+                if name in out:
+                    continue
+                params = [a.arg for a in fn.args.args][1:]
+                for n in ast.walk(fn):
+                    if isinstance(n, ast.Call) and isinstance(n.func, ast.Attribute) and src(n.func.value) == 'self' and n.func.attr in out:
+                        k = out[n.func.attr]
+                        if k < len(n.args) and isinstance(n.args[k], ast.Name) and n.args[k].id in params:
+                            out[name] = params.index(n.args[k].id)
+                            changed = True
+                            break
+        self._releasers = out
+        return out
+
     def _inverting_methods(self):
         """Names of zero-argument methods of the conditional-halt classes that return the table inverse of the instruction on
         the same operands (e.g. a new `inverted()` next to a relocated inversion table): K(a, b).m() == halt_inversion[K](a, b)
